@@ -590,7 +590,9 @@ def extract(crate, fn):
     from .hir import matchified as _matchified
     if any(x.get("k") == "letx" for x in walk(fn["body"])):
         fn = _matchified(fn)        # `if let P = e {A} else {B}` read as the two-armed match it is
-    if any(x.get("k") == "mcall" and x.get("name") in ("enumerate", "zip") for x in walk(fn["body"])):
+    if any(x.get("k") == "mcall" and x.get("name") in ("enumerate", "zip") for x in walk(fn["body"])) or \
+            any(x.get("k") == "for" and strip(x["iter"]) is not None and strip(x["iter"]).get("k") == "mcall" and strip(x["iter"]).get("name") in ("iter", "iter_mut")
+                and any(y.get("k") == "mcall" and y.get("name") == "push" for y in walk(x["body"])) for x in walk(fn["body"])):
         fn2 = _copy.deepcopy(fn)
         changed = False
         for _ in range(6):       # nested loops over the elements bound by an outer rewritten loop
